@@ -8,11 +8,14 @@
 //!                                           dh (BuildHasherDefault<DefaultHasher>)
 //!        `rt;p=<policy>;cap=<n>`            Retry over a scripted backend; policy: never | always |
 //!                                           err | errlt<m> | lt<m> | tb<bits> | okb<v>
-//!   tok  `c<req>`                           one call
+//!   tok  `c<req>[/<ctx>]`                   one call, made with caller context <ctx>
 //!        `p<n1>.<n2>...`                    1-8 OS threads, thread t issues n_t calls through its
 //!                                           own clone of the stub, all released by a barrier
-//!        `r<req>:<res>.<res>...`            one Retry::call; the inner stub answers o<v> (Ok),
+//!        `r<req>[/<ctx>]:<res>.<res>...`    one Retry::call; the inner stub answers o<v> (Ok),
 //!                                           d (DeadlineExceeded), x (Shutdown), s<code> (Server)
+//!   ctx  `t<trace id>.s<span id>.<0|1 sampled>.d<deadline, signed ms from the script's base>`
+//!        (omitted: trace 0, span 0, unsampled, +10000 ms).  Every mock records the context it is
+//!        handed; the script runs under the virtual clock, so the deadline is read back exactly.
 //! A token that is not an operation of the configured stub is a no-op (on both sides).
 use crate::exec::{coq_list, Case};
 use crate::rng::Rng;
@@ -24,11 +27,13 @@ use std::io;
 use std::panic::{catch_unwind, AssertUnwindSafe};
 use std::rc::Rc;
 use std::sync::{Arc, Barrier, Mutex};
+use std::time::{Duration, Instant};
 use tarpc::client::stub::load_balance::{ConsistentHash, RoundRobin};
 use tarpc::client::stub::retry::Retry;
 use tarpc::client::stub::Stub;
 use tarpc::client::RpcError;
 use tarpc::context::{self, Context};
+use tarpc::trace::{SamplingDecision, SpanId, TraceId};
 use tarpc::ServerError;
 
 #[derive(Clone, Debug, PartialEq)]
@@ -38,11 +43,20 @@ pub enum Res {
     Shutdown,
     Server(u64),
 }
+#[derive(Clone, Copy, Debug, PartialEq)]
+pub struct Cx {
+    pub trace: u128,
+    pub span: u64,
+    pub samp: bool,
+    pub dl: i64,
+}
+pub const CX0: Cx = Cx { trace: 0, span: 0, samp: false, dl: 10_000 };
+const DL_MAX: i64 = 900_000_000;
 #[derive(Clone, Debug, PartialEq)]
 pub enum Op {
-    Call(u64),
+    Call(Cx, u64),
     Par(Vec<u32>),
-    RCall(u64, Vec<Res>),
+    RCall(Cx, u64, Vec<Res>),
 }
 #[derive(Clone, Debug, PartialEq)]
 pub enum HK {
@@ -116,16 +130,42 @@ pub fn show(s: &Script) -> String {
         .ops
         .iter()
         .map(|o| match o {
-            Op::Call(r) => format!("c{r}"),
+            Op::Call(c, r) => format!("c{r}{}", show_cx(c)),
             Op::Par(ns) => format!("p{}", ns.iter().map(|n| n.to_string()).collect::<Vec<_>>().join(".")),
-            Op::RCall(r, rs) => {
-                format!("r{r}:{}", rs.iter().map(show_res).collect::<Vec<_>>().join("."))
+            Op::RCall(c, r, rs) => {
+                format!("r{r}{}:{}", show_cx(c), rs.iter().map(show_res).collect::<Vec<_>>().join("."))
             }
         })
         .collect();
     format!("{cfg}|{}", toks.join(" "))
 }
 
+fn show_cx(c: &Cx) -> String {
+    if *c == CX0 {
+        String::new()
+    } else {
+        format!("/t{}.s{}.{}.d{}", c.trace, c.span, c.samp as u8, c.dl)
+    }
+}
+/// `<req>[/<ctx>]`
+fn parse_req_cx(s: &str) -> Option<(Cx, u64)> {
+    let Some((r, c)) = s.split_once('/') else { return Some((CX0, s.parse().ok()?)) };
+    let f: Vec<&str> = c.split('.').collect();
+    if f.len() != 4 {
+        return None;
+    }
+    let cx = Cx {
+        trace: f[0].strip_prefix('t')?.parse().ok()?,
+        span: f[1].strip_prefix('s')?.parse().ok()?,
+        samp: match f[2] {
+            "0" => false,
+            "1" => true,
+            _ => return None,
+        },
+        dl: f[3].strip_prefix('d')?.parse::<i64>().ok()?.clamp(-DL_MAX, DL_MAX),
+    };
+    Some((cx, r.parse().ok()?))
+}
 fn parse_res(s: &str) -> Option<Res> {
     let (h, a) = s.split_at(1.min(s.len()));
     Some(match h {
@@ -196,7 +236,10 @@ pub fn parse(line: &str) -> Option<Script> {
     for t in rest.split_whitespace() {
         let (hd, a) = t.split_at(1);
         ops.push(match hd {
-            "c" => Op::Call(a.parse().ok()?),
+            "c" => {
+                let (c, r) = parse_req_cx(a)?;
+                Op::Call(c, r)
+            }
             "p" => {
                 let ns: Option<Vec<u32>> = a.split('.').map(|n| n.parse::<u32>().ok()).collect();
                 let mut ns = ns?;
@@ -207,7 +250,8 @@ pub fn parse(line: &str) -> Option<Script> {
                 let (r, rs) = a.split_once(':')?;
                 let rs: Option<Vec<Res>> =
                     rs.split('.').filter(|x| !x.is_empty()).map(parse_res).collect();
-                Op::RCall(r.parse().ok()?, rs?)
+                let (c, r) = parse_req_cx(r)?;
+                Op::RCall(c, r, rs?)
             }
             _ => return None,
         });
@@ -235,6 +279,40 @@ fn coq_result(r: &Result<u64, RpcError>) -> String {
         Err(_) => "(SServer 999999998)".into(),
     }
 }
+fn coq_cx(c: &Cx) -> String {
+    format!("(mkcx {} {} {} ({})%Z)", c.trace, c.span, c.samp, c.dl)
+}
+fn instant_at(t0: Instant, ms: i64) -> Instant {
+    if ms >= 0 {
+        t0 + Duration::from_millis(ms as u64)
+    } else {
+        t0 - Duration::from_millis(ms.unsigned_abs())
+    }
+}
+/// The caller's context for one call.
+fn make_ctx(c: &Cx, t0: Instant) -> Context {
+    let mut ctx = context::current();
+    ctx.deadline = instant_at(t0, c.dl);
+    ctx.trace_context.trace_id = TraceId::from(c.trace);
+    ctx.trace_context.span_id = SpanId::from(c.span);
+    ctx.trace_context.sampling_decision =
+        if c.samp { SamplingDecision::Sampled } else { SamplingDecision::Unsampled };
+    ctx
+}
+/// What a mock was handed, read back exactly (the virtual clock keeps `t0` = now).
+fn read_ctx(ctx: &Context, t0: Instant) -> Cx {
+    let dl = if ctx.deadline >= t0 {
+        (ctx.deadline - t0).as_millis() as i64
+    } else {
+        -((t0 - ctx.deadline).as_millis() as i64)
+    };
+    Cx {
+        trace: u128::from(ctx.trace_context.trace_id),
+        span: u64::from(ctx.trace_context.span_id),
+        samp: ctx.trace_context.sampling_decision == SamplingDecision::Sampled,
+        dl,
+    }
+}
 fn coq_pol(p: &Policy) -> String {
     match p {
         Policy::Never => "PNever".into(),
@@ -253,14 +331,14 @@ fn coq_ops(ops: &[Op]) -> String {
     let v: Vec<String> = ops
         .iter()
         .map(|o| match o {
-            Op::Call(r) => format!("Call {r}"),
+            Op::Call(c, r) => format!("Call {} {r}", coq_cx(c)),
             Op::Par(ns) => {
                 let l: Vec<String> = ns.iter().map(|n| format!("{n}%nat")).collect();
                 format!("Par {}", coq_list(&l))
             }
-            Op::RCall(r, rs) => {
+            Op::RCall(c, r, rs) => {
                 let l: Vec<String> = rs.iter().map(coq_res).collect();
-                format!("RCall {r} {}", coq_list(&l))
+                format!("RCall {} {r} {}", coq_cx(c), coq_list(&l))
             }
         })
         .collect();
@@ -273,52 +351,60 @@ fn coq_ops(ops: &[Op]) -> String {
 #[derive(Clone)]
 struct Mock {
     idx: usize,
-    log: Arc<Mutex<Vec<(usize, u64)>>>,
+    t0: Instant,
+    log: Arc<Mutex<Vec<(usize, Cx, u64)>>>,
 }
 impl Stub for Mock {
     type Req = u64;
     type Resp = u64;
-    async fn call(&self, _: Context, req: u64) -> Result<u64, RpcError> {
-        self.log.lock().unwrap().push((self.idx, req));
+    async fn call(&self, ctx: Context, req: u64) -> Result<u64, RpcError> {
+        self.log.lock().unwrap().push((self.idx, read_ctx(&ctx, self.t0), req));
         Ok(req.wrapping_add(1000 * (self.idx as u64 + 1)))
     }
 }
-fn mocks(b: usize) -> (Vec<Mock>, Arc<Mutex<Vec<(usize, u64)>>>) {
+type MockLog = Arc<Mutex<Vec<(usize, Cx, u64)>>>;
+fn mocks(b: usize, t0: Instant) -> (Vec<Mock>, MockLog) {
     let log = Arc::new(Mutex::new(vec![]));
-    ((0..b).map(|idx| Mock { idx, log: log.clone() }).collect(), log)
+    ((0..b).map(|idx| Mock { idx, t0, log: log.clone() }).collect(), log)
 }
 
 /// One call through a load balancer: which mock got it, with which request, and what came back.
 fn one_call<S: Stub<Req = u64, Resp = u64>>(
     stub: &S,
-    log: &Arc<Mutex<Vec<(usize, u64)>>>,
+    log: &MockLog,
+    t0: Instant,
+    cx: &Cx,
     req: u64,
+    tags: &mut BTreeSet<String>,
 ) -> Vec<String> {
     log.lock().unwrap().clear();
+    if *cx != CX0 {
+        tags.insert("balance-nondefault-context".into());
+    }
     let r = catch_unwind(AssertUnwindSafe(|| {
-        futures::executor::block_on(stub.call(context::current(), req))
+        futures::executor::block_on(stub.call(make_ctx(cx, t0), req))
     }));
     let seen = log.lock().unwrap().clone();
     match (r, seen.as_slice()) {
-        (Ok(res), [(k, q)]) => vec![format!("OPick {k} {q} {}", coq_result(&res))],
+        (Ok(res), [(k, c, q)]) => vec![format!("OPick {k} {} {q} {}", coq_cx(c), coq_result(&res))],
         _ => vec!["OPanic".into()],
     }
 }
 
-fn run_rr(b: usize, ops: &[Op], tags: &mut BTreeSet<String>) -> Vec<Vec<String>> {
-    let (ms, log) = mocks(b);
+fn run_rr(b: usize, ops: &[Op], t0: Instant, tags: &mut BTreeSet<String>) -> Vec<Vec<String>> {
+    let (ms, log) = mocks(b, t0);
     let stub = RoundRobin::new(ms);
     let mut obs = vec![];
     let mut calls = 0usize;
     let mut had_par = false;
     for op in ops {
         obs.push(match op {
-            Op::Call(r) => {
+            Op::Call(c, r) => {
                 calls += 1;
                 if had_par {
                     tags.insert("rr-call-after-burst".into());
                 }
-                one_call(&stub, &log, *r)
+                one_call(&stub, &log, t0, c, *r, tags)
             }
             Op::Par(ns) => {
                 had_par = true;
@@ -345,7 +431,7 @@ fn run_rr(b: usize, ops: &[Op], tags: &mut BTreeSet<String>) -> Vec<Vec<String>>
                     panicked |= h.join().is_err();
                 }
                 let mut counts = vec![0u64; b];
-                for (k, _) in log.lock().unwrap().iter() {
+                for (k, _, _) in log.lock().unwrap().iter() {
                     counts[*k] += 1;
                 }
                 let total: u32 = ns.iter().sum();
@@ -407,8 +493,14 @@ impl Hasher for MyHasher {
     }
 }
 
-fn run_ch<S: BuildHasher>(b: usize, hasher: S, ops: &[Op], tags: &mut BTreeSet<String>) -> Vec<Vec<String>> {
-    let (ms, log) = mocks(b);
+fn run_ch<S: BuildHasher>(
+    b: usize,
+    hasher: S,
+    ops: &[Op],
+    t0: Instant,
+    tags: &mut BTreeSet<String>,
+) -> Vec<Vec<String>> {
+    let (ms, log) = mocks(b, t0);
     let stub = match ConsistentHash::with_hasher(ms, hasher) {
         Ok(s) => s,
         Err(_) => return ops.iter().map(|_| vec!["OPanic".to_string()]).collect(),
@@ -417,12 +509,12 @@ fn run_ch<S: BuildHasher>(b: usize, hasher: S, ops: &[Op], tags: &mut BTreeSet<S
     let mut obs = vec![];
     for op in ops {
         obs.push(match op {
-            Op::Call(r) => {
+            Op::Call(c, r) => {
                 if seen.contains(r) {
                     tags.insert("ch-repeated-request".into());
                 }
                 seen.push(*r);
-                one_call(&stub, &log, *r)
+                one_call(&stub, &log, t0, c, *r, tags)
             }
             _ => vec![],
         });
@@ -438,6 +530,7 @@ struct Scripted {
     script: Vec<Res>,
     n: RefCell<usize>,
     cap: usize,
+    t0: Instant,
     events: Rc<RefCell<Vec<String>>>,
     first: RefCell<Option<Arc<u64>>>,
     same_arc: Rc<RefCell<bool>>,
@@ -453,7 +546,7 @@ fn mk_result(r: &Res) -> Result<u64, RpcError> {
 impl Stub for Scripted {
     type Req = Arc<u64>;
     type Resp = u64;
-    async fn call(&self, _: Context, req: Arc<u64>) -> Result<u64, RpcError> {
+    async fn call(&self, ctx: Context, req: Arc<u64>) -> Result<u64, RpcError> {
         let n = *self.n.borrow();
         if n >= self.cap {
             panic!("{}", CAP_MARK);
@@ -469,7 +562,12 @@ impl Stub for Scripted {
             }
         }
         let res = self.script.get(n).cloned().unwrap_or(Res::Shutdown);
-        self.events.borrow_mut().push(format!("OCall {} {}", *req, coq_res(&res)));
+        self.events.borrow_mut().push(format!(
+            "OCall {} {} {}",
+            coq_cx(&read_ctx(&ctx, self.t0)),
+            *req,
+            coq_res(&res)
+        ));
         mk_result(&res)
     }
 }
@@ -488,17 +586,18 @@ fn eval_policy(p: &Policy, res: &Result<u64, RpcError>, i: u32) -> bool {
     }
 }
 
-fn run_rt(p: &Policy, cap: usize, ops: &[Op], tags: &mut BTreeSet<String>) -> Vec<Vec<String>> {
+fn run_rt(p: &Policy, cap: usize, ops: &[Op], t0: Instant, tags: &mut BTreeSet<String>) -> Vec<Vec<String>> {
     let mut obs = vec![];
     for op in ops {
         obs.push(match op {
-            Op::RCall(rq, script) => {
+            Op::RCall(cx, rq, script) => {
                 let events: Rc<RefCell<Vec<String>>> = Default::default();
                 let same_arc = Rc::new(RefCell::new(true));
                 let inner = Scripted {
                     script: script.clone(),
                     n: RefCell::new(0),
                     cap,
+                    t0,
                     events: events.clone(),
                     first: RefCell::new(None),
                     same_arc: same_arc.clone(),
@@ -510,12 +609,18 @@ fn run_rt(p: &Policy, cap: usize, ops: &[Op], tags: &mut BTreeSet<String>) -> Ve
                     d
                 });
                 let r = catch_unwind(AssertUnwindSafe(|| {
-                    futures::executor::block_on(stub.call(context::current(), *rq))
+                    futures::executor::block_on(stub.call(make_ctx(cx, t0), *rq))
                 }));
                 let mut evs = events.borrow().clone();
                 let attempts = evs.iter().filter(|e| e.starts_with("OPol")).count();
                 match r {
                     Ok(res) => {
+                        if attempts >= 2 && *cx != CX0 {
+                            tags.insert("retry-retried-nondefault-context".into());
+                            if cx.dl <= 0 {
+                                tags.insert("retry-retried-expired-deadline".into());
+                            }
+                        }
                         if attempts >= 2 {
                             tags.insert("retry-retried".into());
                             if res.is_ok() {
@@ -563,17 +668,20 @@ fn overflow_checks() -> bool {
 
 pub fn to_case(s: &Script) -> Case {
     let mut tags: BTreeSet<String> = Default::default();
+    // virtual clock: Instant::now() is one fixed instant, deadlines are read back exactly
+    crate::vclock::reset();
+    let t0 = Instant::now();
     let (cfg, obs) = match &s.cfg {
         Cfg::RR(b) => {
             tags.insert("round-robin".into());
-            (format!("(CRR {b})"), run_rr(*b, &s.ops, &mut tags))
+            (format!("(CRR {b})"), run_rr(*b, &s.ops, t0, &mut tags))
         }
         Cfg::CH(b, hk) => {
             tags.insert(format!("consistent-hash-{}", show_hk(hk).trim_end_matches(|c: char| c.is_ascii_digit() || c == '.')));
             let reqs: Vec<u64> = s
                 .ops
                 .iter()
-                .filter_map(|o| if let Op::Call(r) = o { Some(*r) } else { None })
+                .filter_map(|o| if let Op::Call(_, r) = o { Some(*r) } else { None })
                 .collect();
             let table = |f: &dyn Fn(u64) -> u64| {
                 let mut seen = BTreeSet::new();
@@ -588,20 +696,20 @@ pub fn to_case(s: &Script) -> Case {
                 HK::Random => {
                     let rs = RandomState::new();
                     let t = table(&|r| rs.hash_one(r));
-                    (t, run_ch(*b, rs.clone(), &s.ops, &mut tags))
+                    (t, run_ch(*b, rs.clone(), &s.ops, t0, &mut tags))
                 }
                 HK::DefaultSip => {
                     let bh = BuildHasherDefault::<DefaultHasher>::default();
                     let t = table(&|r| bh.hash_one(r));
-                    (t, run_ch(*b, bh, &s.ops, &mut tags))
+                    (t, run_ch(*b, bh, &s.ops, t0, &mut tags))
                 }
-                HK::Const(k) => (format!("(HConst {k})"), run_ch(*b, MyBuild(hk.clone()), &s.ops, &mut tags)),
-                HK::Ident => ("HIdent".into(), run_ch(*b, MyBuild(hk.clone()), &s.ops, &mut tags)),
+                HK::Const(k) => (format!("(HConst {k})"), run_ch(*b, MyBuild(hk.clone()), &s.ops, t0, &mut tags)),
+                HK::Ident => ("HIdent".into(), run_ch(*b, MyBuild(hk.clone()), &s.ops, t0, &mut tags)),
                 HK::Affine(a, c) => {
-                    (format!("(HAffine {a} {c})"), run_ch(*b, MyBuild(hk.clone()), &s.ops, &mut tags))
+                    (format!("(HAffine {a} {c})"), run_ch(*b, MyBuild(hk.clone()), &s.ops, t0, &mut tags))
                 }
-                HK::Fnv => ("HFnv".into(), run_ch(*b, MyBuild(hk.clone()), &s.ops, &mut tags)),
-                HK::Fold => ("HFold".into(), run_ch(*b, MyBuild(hk.clone()), &s.ops, &mut tags)),
+                HK::Fnv => ("HFnv".into(), run_ch(*b, MyBuild(hk.clone()), &s.ops, t0, &mut tags)),
+                HK::Fold => ("HFold".into(), run_ch(*b, MyBuild(hk.clone()), &s.ops, t0, &mut tags)),
             };
             (format!("(CCH {b} (hash_of {hterm}))"), obs)
         }
@@ -609,7 +717,7 @@ pub fn to_case(s: &Script) -> Case {
             tags.insert(format!("retry-{}", show_pol(p).trim_end_matches(|c: char| c.is_ascii_digit())));
             (
                 format!("(CRetry (pol_eval {}) {cap} {})", coq_pol(p), overflow_checks()),
-                run_rt(p, *cap, &s.ops, &mut tags),
+                run_rt(p, *cap, &s.ops, t0, &mut tags),
             )
         }
     };
@@ -634,6 +742,28 @@ fn gen_req(rng: &mut Rng) -> u64 {
         _ => u64::MAX - rng.below(3),
     }
 }
+/// The caller's context: 3 in 4 are non-default (several trace ids incl. beyond 64 bits, both
+/// sampling decisions, live and already expired deadlines).
+fn gen_cx(rng: &mut Rng) -> Cx {
+    if rng.chance(1, 4) {
+        return CX0;
+    }
+    Cx {
+        trace: *rng.pick(&[1u128, 7, 42, (1u128 << 64) + 5, u128::MAX, 0]),
+        span: if rng.chance(1, 2) { rng.range(1, 9) } else { rng.next() },
+        samp: rng.chance(1, 2),
+        dl: *rng.pick(&[10_000i64, 5_000, 1, 0, -1, -60_000, 3_600_000]),
+    }
+}
+/// the contexts the sweep cycles through
+fn sweep_cx(i: usize) -> Cx {
+    [
+        Cx { trace: 7, span: 3, samp: true, dl: 5_000 },
+        Cx { trace: (1u128 << 64) + 5, span: u64::MAX, samp: false, dl: -60_000 },
+        CX0,
+        Cx { trace: 1, span: 0, samp: true, dl: 0 },
+    ][i % 4]
+}
 fn gen_res(rng: &mut Rng) -> Res {
     match rng.weighted(&[3, 2, 2, 3]) {
         0 => Res::Ok(rng.below(5)),
@@ -651,12 +781,12 @@ pub fn gen(rng: &mut Rng) -> Script {
             let mut ops = vec![];
             for _ in 0..n {
                 ops.push(match rng.weighted(&[6, 4, 1]) {
-                    0 => Op::Call(gen_req(rng)),
+                    0 => Op::Call(gen_cx(rng), gen_req(rng)),
                     1 => {
                         let threads = rng.range(1, 8) as usize;
                         Op::Par((0..threads).map(|_| rng.below(40) as u32).collect())
                     }
-                    _ => Op::RCall(1, vec![Res::Ok(1)]),
+                    _ => Op::RCall(CX0, 1, vec![Res::Ok(1)]),
                 });
             }
             Script { cfg: Cfg::RR(b), ops }
@@ -675,7 +805,10 @@ pub fn gen(rng: &mut Rng) -> Script {
             let n = rng.range(2, 16) as usize;
             let pool: Vec<u64> = (0..rng.range(1, 5)).map(|_| gen_req(rng)).collect();
             let ops = (0..n)
-                .map(|_| if rng.chance(7, 10) { Op::Call(*rng.pick(&pool)) } else { Op::Call(gen_req(rng)) })
+                .map(|_| {
+                    let c = gen_cx(rng);
+                    if rng.chance(7, 10) { Op::Call(c, *rng.pick(&pool)) } else { Op::Call(c, gen_req(rng)) }
+                })
                 .collect();
             Script { cfg: Cfg::CH(b, hk), ops }
         }
@@ -694,7 +827,7 @@ pub fn gen(rng: &mut Rng) -> Script {
             let ops = (0..n)
                 .map(|_| {
                     let len = rng.range(0, 8) as usize;
-                    Op::RCall(gen_req(rng), (0..len).map(|_| gen_res(rng)).collect())
+                    Op::RCall(gen_cx(rng), gen_req(rng), (0..len).map(|_| gen_res(rng)).collect())
                 })
                 .collect();
             Script { cfg: Cfg::RT(p, cap), ops }
@@ -707,13 +840,19 @@ pub fn sweep(mut f: impl FnMut(Script)) {
     // round robin: b = 1..8; k sequential calls for every k <= 3b; bursts from 1..8 threads
     for b in 1..=8usize {
         for k in 0..=3 * b {
-            f(Script { cfg: Cfg::RR(b), ops: (0..k).map(|i| Op::Call(i as u64)).collect() });
+            f(Script { cfg: Cfg::RR(b), ops: (0..k).map(|i| Op::Call(sweep_cx(i), i as u64)).collect() });
         }
         for threads in 1..=8usize {
             for per in [1u32, 7, 50] {
                 f(Script {
                     cfg: Cfg::RR(b),
-                    ops: vec![Op::Call(1), Op::Par(vec![per; threads]), Op::Call(2), Op::Par(vec![per + 1; threads]), Op::Call(3)],
+                    ops: vec![
+                        Op::Call(sweep_cx(threads), 1),
+                        Op::Par(vec![per; threads]),
+                        Op::Call(sweep_cx(threads + 1), 2),
+                        Op::Par(vec![per + 1; threads]),
+                        Op::Call(sweep_cx(threads + 2), 3),
+                    ],
                 });
             }
         }
@@ -722,10 +861,10 @@ pub fn sweep(mut f: impl FnMut(Script)) {
     let hks = [HK::Const(7), HK::Ident, HK::Affine(6364136223846793005, 1442695040888963407), HK::Fnv, HK::Fold, HK::Random, HK::DefaultSip];
     for hk in &hks {
         for b in 1..=5usize {
-            let mut ops: Vec<Op> = (0..16u64).map(Op::Call).collect();
-            ops.extend((0..16u64).rev().map(Op::Call));
-            ops.push(Op::Call(u64::MAX));
-            ops.push(Op::Call(u64::MAX));
+            let mut ops: Vec<Op> = (0..16u64).map(|r| Op::Call(sweep_cx(r as usize), r)).collect();
+            ops.extend((0..16u64).rev().map(|r| Op::Call(sweep_cx(r as usize + 1), r)));
+            ops.push(Op::Call(sweep_cx(0), u64::MAX));
+            ops.push(Op::Call(sweep_cx(1), u64::MAX));
             f(Script { cfg: Cfg::CH(b, hk.clone()), ops });
         }
     }
@@ -756,8 +895,8 @@ pub fn sweep(mut f: impl FnMut(Script)) {
         frontier = next;
     }
     for p in &pols {
-        for s in &scripts {
-            f(Script { cfg: Cfg::RT(p.clone(), 6), ops: vec![Op::RCall(7, s.clone())] });
+        for (i, s) in scripts.iter().enumerate() {
+            f(Script { cfg: Cfg::RT(p.clone(), 6), ops: vec![Op::RCall(sweep_cx(i), 7, s.clone())] });
         }
     }
 }
